@@ -147,11 +147,15 @@ def tool_run(path: str, ls_paths: List[str], dest: str) -> Dict[str, Any]:
     for p in ls_paths:
         try:
             res["ls"][p] = repo.ls(path, p)
+        except MemoryError:          # running into the address-space limit is the observation, not an error message of the tool
+            raise
         except BaseException as e:  # noqa
             res["ls"][p] = f"EXC {type(e).__name__}"
     try:
         lines = repo.export(path, dest)
         res["export"] = sorted(lines)
+    except MemoryError:
+        raise
     except BaseException as e:  # noqa
         res["export"] = f"EXC {type(e).__name__}"
     return res
